@@ -201,13 +201,23 @@ def build(t):
     raise ValueError(t)
 
 
+def _seal(t, x):
+    import zlib
+    return zlib.crc32((t + '\0' + json.dumps(x, sort_keys=True)).encode('utf-8', 'surrogatepass'))
+
+
+def F(t, x, h=True):
+    """A text fragment; 'c' seals (text, expected value) so that no minimisation step can make them disagree."""
+    return {'t': t, 'x': x, 'h': h, 'c': _seal(t, x)}
+
+
 def _lit(v):
-    return {'t': repr(v), 'x': tree(v), 'h': _hashable_value(v)}
+    return F(repr(v), tree(v), _hashable_value(v))
 
 
 _frag_lit = st.one_of(_values.map(_lit),
-                      st.sampled_from(_VARIANTS).map(lambda tv: {'t': tv[0], 'x': tree(tv[1]), 'h': _hashable_value(tv[1])}))
-_frag_non = st.sampled_from(_NONLIT).map(lambda t: {'t': t, 'x': None, 'h': True})
+                      st.sampled_from(_VARIANTS).map(lambda tv: F(tv[0], tree(tv[1]), _hashable_value(tv[1]))))
+_frag_non = st.sampled_from(_NONLIT).map(lambda t: F(t, None))
 _frag_obj = st.sampled_from(['int', 'list', 'obj', 'none', 'float']).map(lambda k: {'obj': k})
 _frag = st.one_of(_frag_lit, _frag_lit, _frag_non, _frag_non, _frag_obj)
 _key = st.one_of(_frag_lit.filter(lambda f: f['h']), _frag_non, _frag_non,
@@ -223,23 +233,23 @@ def _respell(f, render):
     if 'obj' in f:
         if f['obj'] in _OBJ_TEXT:
             t, v = _OBJ_TEXT[f['obj']]
-            out.append({'t': t, 'x': tree(v), 'h': True})
+            out.append(F(t, tree(v)))
         return out
     t = f['t']
     if f['x'] is not None:
         # a literal: surrounding blanks / parentheses do not change what it denotes
-        out += [{'t': ' ' + t, 'x': f['x'], 'h': f['h']}, {'t': t + ' ', 'x': f['x'], 'h': f['h']}]
+        out += [F(' ' + t, f['x'], f['h']), F(t + ' ', f['x'], f['h'])]
         if '#' not in t:      # (a trailing comment would swallow the closing parenthesis)
-            out.append({'t': '(' + t + ')', 'x': f['x'], 'h': f['h']})
+            out.append(F('(' + t + ')', f['x'], f['h']))
         if 'str' in f['x'] and f['x']['str'] not in _LITERAL_LOOKING and not _looks_literal(f['x']['str']):
-            out.append({'t': f['x']['str'], 'x': None, 'h': True})        # the bare text, which is not a literal
+            out.append(F(f['x']['str'], None))        # the bare text, which is not a literal
         if render != 'strings':
             for kind, (ot, ov) in _OBJ_TEXT.items():
                 if f['x'] == tree(ov):
                     out.append({'obj': kind})
     elif t and not _looks_literal(t):
         # a non-literal text stays itself: the quoted literal denotes the same key
-        out += [{'t': repr(t), 'x': tree(t), 'h': True}, {'t': ' ' + repr(t), 'x': tree(t), 'h': True}]
+        out += [F(repr(t), tree(t)), F(' ' + repr(t), tree(t))]
     return out
 
 
@@ -298,6 +308,8 @@ def valid(case):
                         return False
                 elif not isinstance(f['t'], str):
                     return False
+                elif 'c' in f and f['c'] != _seal(f['t'], f['x']):
+                    return False      # text and expected value no longer belong together
         return case['render'] in ('mapping', 'pairs', 'strings') and isinstance(case['sep'], str) and len(case['sep']) >= 1
     except (KeyError, TypeError):
         return False
@@ -524,7 +536,8 @@ def extra(tier, seed_, col):
     os.makedirs(out, exist_ok=True)
     stats_path = os.path.join(out, 'stats.json')
     for corpus_kind in ('empty', 'doctest'):
-        cdir = os.path.join('/tmp', 'c19_corpus_%s_%d' % (corpus_kind, os.getpid()))
+        import tempfile
+        cdir = os.path.join(tempfile.gettempdir(), 'c19_corpus_%s_%d' % (corpus_kind, os.getpid()))
         subprocess.call(['rm', '-rf', cdir])
         os.makedirs(cdir)
         if os.path.exists(stats_path):
